@@ -214,7 +214,19 @@ def _full(mask, vals, n):
     return out
 
 
-def _geom_outputs(g, n):
+def _safe(fn):
+    """Accessor names are the repository's; if a refactor renames one, the stage becomes
+    unobservable for this check (a probe counts it) instead of crashing the harness."""
+    def wrapped(ctx, g, n):
+        try:
+            return fn(g, n)
+        except AttributeError as e:
+            ctx.probes["stage_unobservable:" + str(e)[:60]] += 1
+            return None
+    return wrapped
+
+
+def _geom_outputs_raw(g, n):
     mask = np.asarray(g.event_mask, dtype=bool)
     outs = [mask.astype(np.uint8)]
     for name in ("betas", "beta_rad", "thetas", "phis", "pathLens", "valid_costhetaTrSubN", "valid_costhetaNSubV", "valid_costhetaTrSubV",
@@ -226,7 +238,7 @@ def _geom_outputs(g, n):
     return outs
 
 
-def _too_outputs(g, n):
+def _too_outputs_raw(g, n):
     hm = np.asarray(g.horizon_mask, dtype=bool)
     vm = np.asarray(g.volume_mask, dtype=bool)
     full = np.zeros(n, dtype=bool)
@@ -242,6 +254,10 @@ def _too_outputs(g, n):
     outs.append(_full(full, np.asarray(vt.jd1), n))
     outs.append(_full(full, np.asarray(vt.jd2), n))
     return outs
+
+
+_geom_outputs = _safe(_geom_outputs_raw)
+_too_outputs = _safe(_too_outputs_raw)
 
 
 def scn_history(ctx):
@@ -311,18 +327,20 @@ def scn_history(ctx):
                 u = np.ascontiguousarray(P["u4"][:, idx]) if ch.draw(4, "u_layout") else np.asfortranarray(P["u4"][:, idx])
                 if _guard_args(ctx, "RegionGeom.throw", opi, [u], lambda: g.throw(u), lambda: RegionGeom(cfg).throw(np.array(u))) is _FAILED:
                     continue
-                memo.observe(ctx, "RegionGeom.throw", "explicit-u", idx, _geom_outputs(g, n), opi, n)
+                outs = _geom_outputs(ctx, g, n)
+                if outs is not None:
+                    memo.observe(ctx, "RegionGeom.throw", "explicit-u", idx, outs, opi, n)
             elif st == "geom_call_seeded":
                 g = obj("geom")
                 s = ch.draw(1000, "seed")
                 nn = 1 + ch.draw(60, "n")
                 np.random.seed(s)
                 r1 = [np.array(x) for x in g(nn)]
-                o1 = _geom_outputs(g, nn)
+                o1 = _geom_outputs(ctx, g, nn) or []
                 np.random.seed(s)
                 uu = np.random.rand(4, nn)
                 g.throw(uu)
-                o2 = _geom_outputs(g, nn)
+                o2 = _geom_outputs(ctx, g, nn) or []
                 np.random.seed(s)
                 r3 = [np.array(x) for x in g(nn)]
                 for a, b in zip(o1, o2):
@@ -338,7 +356,9 @@ def scn_history(ctx):
                 t = L(P["tfrac"][idx])
                 if _guard_args(ctx, "RegionGeomToO.throw", opi, [t], lambda: g.throw(t), lambda: RegionGeomToO(tcfg).throw(np.array(t))) is _FAILED:
                     continue
-                memo.observe(ctx, "RegionGeomToO.throw", "explicit-times", idx, _too_outputs(g, n), opi, n)
+                outs = _too_outputs(ctx, g, n)
+                if outs is not None:
+                    memo.observe(ctx, "RegionGeomToO.throw", "explicit-times", idx, outs, opi, n)
             elif st == "spec":
                 sp = obj("spec")
                 s = ch.draw(1000, "seed")
